@@ -7,33 +7,39 @@ arrays is translated as the scalar function of ONE element (elementwise applicat
 shape-only operations (`x[:, None]`, `.copy()`, `float()`) are the identity; `x[m] = e` with a boolean
 mask is `if m then e else x`; a raised exception is `none`.
 
-kernel usl_term: pybrops/model/gmod/DenseAdditiveLinearGenomicModel.py :: DenseAdditiveLinearGenomicModel.usl_numpy  sha=fd428e8909e8fadd  FAILED
+kernel usl_term: pybrops/model/gmod/DenseAdditiveLinearGenomicModel.py :: DenseAdditiveLinearGenomicModel.usl_numpy  sha=c2136b129b421f8a  ok
     slice: targets ['out', 'p', 'uslgeno'] -> out
-    usl_term (pybrops/model/gmod/DenseAdditiveLinearGenomicModel.py:DenseAdditiveLinearGenomicModel.usl_numpy): Untranslatable: name `self._u_a_pos` is neither a declared parameter nor assigned in the kernel
-kernel lsl_term: pybrops/model/gmod/DenseAdditiveLinearGenomicModel.py :: DenseAdditiveLinearGenomicModel.lsl_numpy  sha=753042c4f2567d5b  FAILED
+kernel lsl_term: pybrops/model/gmod/DenseAdditiveLinearGenomicModel.py :: DenseAdditiveLinearGenomicModel.lsl_numpy  sha=17702e4877bc3553  ok
     slice: targets ['lslgeno', 'out', 'p'] -> out
-    lsl_term (pybrops/model/gmod/DenseAdditiveLinearGenomicModel.py:DenseAdditiveLinearGenomicModel.lsl_numpy): Untranslatable: name `self._u_a_pos` is neither a declared parameter nor assigned in the kernel
-kernel usl_geno: pybrops/model/gmod/DenseAdditiveLinearGenomicModel.py :: DenseAdditiveLinearGenomicModel.usl_numpy  sha=fd428e8909e8fadd  FAILED
+kernel usl_geno: pybrops/model/gmod/DenseAdditiveLinearGenomicModel.py :: DenseAdditiveLinearGenomicModel.usl_numpy  sha=c2136b129b421f8a  ok
     slice: targets ['p', 'uslgeno'] -> uslgeno
-    usl_geno (pybrops/model/gmod/DenseAdditiveLinearGenomicModel.py:DenseAdditiveLinearGenomicModel.usl_numpy): Untranslatable: name `self._u_a_pos` is neither a declared parameter nor assigned in the kernel
-kernel lsl_geno: pybrops/model/gmod/DenseAdditiveLinearGenomicModel.py :: DenseAdditiveLinearGenomicModel.lsl_numpy  sha=753042c4f2567d5b  FAILED
+kernel lsl_geno: pybrops/model/gmod/DenseAdditiveLinearGenomicModel.py :: DenseAdditiveLinearGenomicModel.lsl_numpy  sha=17702e4877bc3553  ok
     slice: targets ['lslgeno', 'p'] -> lslgeno
-    lsl_geno (pybrops/model/gmod/DenseAdditiveLinearGenomicModel.py:DenseAdditiveLinearGenomicModel.lsl_numpy): Untranslatable: name `self._u_a_pos` is neither a declared parameter nor assigned in the kernel
 -/
 import PybropsModel.Np
 
 namespace PyK.C10
 
 /-- pybrops/model/gmod/DenseAdditiveLinearGenomicModel.py :: DenseAdditiveLinearGenomicModel.usl_numpy; model counterpart: SelLimit.uslTerm -/
--- NOT TRANSLATED: usl_term (pybrops/model/gmod/DenseAdditiveLinearGenomicModel.py:DenseAdditiveLinearGenomicModel.usl_numpy): Untranslatable: name `self._u_a_pos` is neither a declared parameter nor assigned in the kernel
+def usl_term {α : Type} [Mul α] [OfNat α 0] [OfNat α 1] [LT α] [DecidableLT α] [LE α] [DecidableLE α] (ploidy : α) (u_a : α) (p : α) : α :=
+  let uslgeno : Bool := decide (if (u_a > 0) then (p > 0) else (p ≥ 1))
+  let out := ((ploidy * u_a) * (if (uslgeno = true) then 1 else 0))
+  out
 
 /-- pybrops/model/gmod/DenseAdditiveLinearGenomicModel.py :: DenseAdditiveLinearGenomicModel.lsl_numpy; model counterpart: SelLimit.lslTerm -/
--- NOT TRANSLATED: lsl_term (pybrops/model/gmod/DenseAdditiveLinearGenomicModel.py:DenseAdditiveLinearGenomicModel.lsl_numpy): Untranslatable: name `self._u_a_pos` is neither a declared parameter nor assigned in the kernel
+def lsl_term {α : Type} [Mul α] [OfNat α 0] [OfNat α 1] [LT α] [DecidableLT α] [LE α] [DecidableLE α] (ploidy : α) (u_a : α) (p : α) : α :=
+  let lslgeno : Bool := decide (if (u_a > 0) then (p ≥ 1) else (p > 0))
+  let out := ((ploidy * u_a) * (if (lslgeno = true) then 1 else 0))
+  out
 
 /-- pybrops/model/gmod/DenseAdditiveLinearGenomicModel.py :: DenseAdditiveLinearGenomicModel.usl_numpy; model counterpart: SelLimit.uslGeno -/
--- NOT TRANSLATED: usl_geno (pybrops/model/gmod/DenseAdditiveLinearGenomicModel.py:DenseAdditiveLinearGenomicModel.usl_numpy): Untranslatable: name `self._u_a_pos` is neither a declared parameter nor assigned in the kernel
+def usl_geno {α : Type} [OfNat α 0] [OfNat α 1] [LT α] [DecidableLT α] [LE α] [DecidableLE α] (u_a : α) (p : α) : Bool :=
+  let uslgeno : Bool := decide (if (u_a > 0) then (p > 0) else (p ≥ 1))
+  uslgeno
 
 /-- pybrops/model/gmod/DenseAdditiveLinearGenomicModel.py :: DenseAdditiveLinearGenomicModel.lsl_numpy; model counterpart: SelLimit.lslGeno -/
--- NOT TRANSLATED: lsl_geno (pybrops/model/gmod/DenseAdditiveLinearGenomicModel.py:DenseAdditiveLinearGenomicModel.lsl_numpy): Untranslatable: name `self._u_a_pos` is neither a declared parameter nor assigned in the kernel
+def lsl_geno {α : Type} [OfNat α 0] [OfNat α 1] [LT α] [DecidableLT α] [LE α] [DecidableLE α] (u_a : α) (p : α) : Bool :=
+  let lslgeno : Bool := decide (if (u_a > 0) then (p ≥ 1) else (p > 0))
+  lslgeno
 
 end PyK.C10
